@@ -54,7 +54,9 @@ deriving Repr
 section
 variable {K : Type} [Add K] [Sub K] [Mul K] [Div K] [OfNat K 0] [OfNat K 1]
 
-/-- expectation = "t": `logt = -np.log1p(1 / nlive)`, i.e. `t = 1 / (1 + 1/n)` -/
+/-- expectation = "t": `logt = -np.log1p(1 / nlive)`, i.e. `t = 1 / (1 + 1/n)`.
+Domain `n ≥ 1`: for `nlive = 0` the code raises `ZeroDivisionError` (`increment`) or produces `-inf`/NaN
+(`compute_weights`), whereas a field gives `1/0 = 0` and hence `tOfN 0 = 1`; the theorems carry `1 ≤ n`. -/
 def tOfN [NatCast K] (n : Nat) : K := 1 / (1 + 1 / (n : K))
 
 /-- `np.cumsum(logt)` started from `logw` (linear domain: cumulative product started from `w`) -/
